@@ -835,6 +835,12 @@ func (c *compiler) compile(tok *token) []instruction {
 			res = append(res, c.compile(tok.Tokens[makeLen])...)
 			res = append(res, instruction{Code: codeMake, A: reg(typ.value())})
 		case TypeMap:
+			if len(tok.Tokens) > makeLen {
+				// the size is only a hint and sizes nothing here, but it is an operand
+				// like any other: it is evaluated (it can call, and fail) and dropped
+				res = append(res, c.compile(tok.Tokens[makeLen])...)
+				res = append(res, instruction{Code: codePop})
+			}
 			kt, vt := typ.pair()
 			res = append(res, instruction{Code: codeNewMap, A: reg(kt), B: reg(vt), C: 0})
 		}
